@@ -870,16 +870,40 @@ def run_c05_diff(prop, tier, seed):
     ev = 0
 
     def script_for(g, kind):
-        ops = []
+        """Items: ("op", path, op) navigated afresh | ("take", path, hid) keep a nested handle | ("use", hid, op) operate
+        through a kept handle | ("enter", kind) / ("exit",) a nested context in the middle (skipped in the unbuffered run)."""
+        items = []
         shadow = g.container(kind, 2, small=True)
+        if isinstance(shadow, dict):
+            shadow.setdefault("a", {"x": 1, "l": [1, {"y": 2}]})
+        else:
+            shadow.append({"x": 1, "l": [1, {"y": 2}]})
         init = copy.deepcopy(shadow)
-        for _ in range(g.r.randint(4, 9)):
-            # choose a position: root or a nested container
+        nhandles = 0
+        open_ctx = 0
+        for _ in range(g.r.randint(5, 11)):
+            r = g.r.random()
             paths = [[]]
             if isinstance(shadow, dict):
                 paths += [[k] for k, v in shadow.items() if isinstance(v, (dict, list))]
             else:
                 paths += [[i] for i, v in enumerate(shadow) if isinstance(v, (dict, list))]
+            if r < 0.15 and len(paths) > 1:
+                items.append(("take", g.r.choice(paths[1:]), nhandles))
+                nhandles += 1
+                continue
+            if r < 0.27 and open_ctx < 2:
+                items.append(("enter", g.r.choice(["obj", "cls"])))
+                open_ctx += 1
+                continue
+            if r < 0.37 and open_ctx > 0:
+                items.append(("exit",))
+                open_ctx -= 1
+                continue
+            if r < 0.55 and nhandles:
+                # through a kept handle: simple operations that are valid on a dict or a list alike are chosen at run time
+                items.append(("use", g.r.randrange(nhandles), g.r.choice(["set", "read", "clear", "grow"])))
+                continue
             path = g.r.choice(paths)
             tgt = shadow
             for k in path:
@@ -890,40 +914,77 @@ def run_c05_diff(prop, tier, seed):
                     continue
             else:
                 op = g.list_mut(tgt, 2) if isinstance(tgt, list) else g.dict_mut(tgt, 2)
-                if g.r.random() < 0.35:
+                if g.r.random() < 0.3:
                     bad = BAD_VALUES[g.r.choice([1, 2, 3])]
                     if op[0] in ("DUpdate", "DReset") and isinstance(op[1], dict):
                         v = dict(op[1]); v.setdefault("a", 1); v["zz_bad"] = bad
                         op = (op[0], v)
                     elif op[0] in ("LExtend", "LIAdd", "LReset") and isinstance(op[1], list):
                         op = (op[0], list(op[1]) + [1, bad, 2])
-            ops.append((path, op))
+            items.append(("op", path, op))
             try:
                 apply_lop(tgt, copy.deepcopy(op)) if isinstance(tgt, list) else apply_dop(tgt, copy.deepcopy(op))
             except Exception:  # noqa
                 pass
-        return init, ops
+        items += [("exit",)] * open_ctx
+        return init, items
 
     def run(cls, fn, init, ops, nesting):
         with open(fn, "w") as fh:
             json.dump(init, fh)
         x = cls(fn)
         trace = []
+        handles = {}
+        conv = lambda v: v._to_base() if hasattr(v, "_to_base") else v   # noqa
         with contextlib.ExitStack() as stack:
             for lvl in ([] if nesting == "none" else nesting.split(">")):
                 stack.enter_context(x.buffered if lvl == "obj" else cls.buffer_backend())
-            for path, op in ops:
+            inner = []
+            for it in ops:
                 try:
-                    tgt = x
-                    for k in path:
-                        tgt = tgt[k]
-                    is_list = isinstance(object.__getattribute__(tgt, "_data"), list)
-                    conv = lambda v: v._to_base() if hasattr(v, "_to_base") else v   # noqa
-                    r = apply_lop(tgt, copy.deepcopy(op), conv) if is_list else apply_dop(tgt, copy.deepcopy(op), conv)
-                    r = ("ok", copy.deepcopy(r))
+                    if it[0] == "enter":
+                        if nesting != "none":
+                            c_ = x.buffered if it[1] == "obj" else cls.buffer_backend()
+                            c_.__enter__()
+                            inner.append(c_)
+                        continue
+                    if it[0] == "exit":
+                        if nesting != "none" and inner:
+                            inner.pop().__exit__(None, None, None)
+                        continue
+                    if it[0] == "take":
+                        tgt = x
+                        for k in it[1]:
+                            tgt = tgt[k]
+                        handles[it[2]] = tgt
+                        r = ("ok", "taken" if hasattr(tgt, "_to_base") else "scalar")
+                    elif it[0] == "use":
+                        h = handles.get(it[1])
+                        if h is None or not hasattr(h, "_to_base"):
+                            r = ("ok", "no-handle")
+                        else:
+                            is_list = isinstance(object.__getattribute__(h, "_data"), list)
+                            if it[2] == "set":
+                                r = ("ok", (h.append("via-handle") if is_list else h.__setitem__("via_handle", [1])))
+                            elif it[2] == "grow":
+                                r = ("ok", (h.extend([{"g": 1}]) if is_list else h.update({"g": {"h": 1}})))
+                            elif it[2] == "clear":
+                                r = ("ok", h.clear())
+                            else:
+                                r = ("ok", copy.deepcopy(h()))
+                    else:
+                        _, path, op = it
+                        tgt = x
+                        for k in path:
+                            tgt = tgt[k]
+                        is_list = isinstance(object.__getattribute__(tgt, "_data"), list)
+                        r = apply_lop(tgt, copy.deepcopy(op), conv) if is_list else apply_dop(tgt, copy.deepcopy(op), conv)
+                        r = ("ok", copy.deepcopy(r))
                 except Exception as e:  # noqa
                     r = ("err", err_class(e))
                 trace.append((r, copy.deepcopy(x())))
+            while inner:
+                inner.pop().__exit__(None, None, None)
         with open(fn) as fh:
             final = json.load(fh)
         return trace, final, copy.deepcopy(x())
@@ -931,9 +992,22 @@ def run_c05_diff(prop, tier, seed):
         classes = buffered_classes(ns)
         for ci, cls in enumerate(classes):
             kind = "list" if cls.__name__.endswith("List") else "dict"
-            for rep in range(n):
+            directed = []
+            dinit = {"a": {"x": 1, "l": [1, {"y": 2}]}, "b": 1} if kind == "dict" else [1, {"x": 1, "l": [1, {"y": 2}]}]
+            hp = ["a"] if kind == "dict" else [1]
+            same = ("DReset", {"a": {"x": 2}}) if kind == "dict" else ("LReset", [1, {"x": 2}])
+            other = ("DReset", {"q": 1}) if kind == "dict" else ("LReset", [5])
+            clear = ("DClear",) if kind == "dict" else ("LClear",)
+            for mid in ([("enter", "obj"), ("exit",)], [("enter", "cls"), ("exit",)], [("enter", "obj"), ("enter", "cls"), ("exit",), ("exit",)], []):
+                for root_op in (same, other, clear):
+                    for use in ("set", "grow", "read"):
+                        directed.append((copy.deepcopy(dinit), [("take", hp, 0)] + mid + [("op", [], root_op), ("use", 0, use), ("op", [], ("DCall",) if kind == "dict" else ("LCall",))]))
+                        directed.append((copy.deepcopy(dinit), [("take", hp, 0), ("use", 0, "set")] + mid + [("use", 0, use), ("op", [], root_op)]))
+            if tier == "quick":
+                directed = directed[:: 3] + directed[1:: 7]
+            for rep in range(n + len(directed)):
                 g = gmod.G(seed * 7919 + ci * 1009 + rep)
-                init, ops = script_for(g, kind)
+                init, ops = directed[rep - n] if rep >= n else script_for(g, kind)
                 base = None
                 for nesting in nestings:
                     fn = os.path.join(tmp, f"d{ci}_{rep}_{nesting.replace('>', '_')}.json")
@@ -946,19 +1020,23 @@ def run_c05_diff(prop, tier, seed):
                     finally:
                         BSession.reset_class(type("R", (), {"cls": cls, "default_cap": cls.get_buffer_capacity()})())
                     ev += len(ops)
+                    if len(got[0]) != len([it for it in ops if it[0] not in ("enter", "exit")]):
+                        res["oracle_failures"].append({"oracle": "harness", "cls": cls.__name__, "detail": "trace length mismatch"})
+                        continue
                     if base is None:
                         base = got
                         continue
                     why = None
+                    traced = [it for it in ops if it[0] not in ("enter", "exit")]
                     for i, ((r0, s0), (r1, s1)) in enumerate(zip(base[0], got[0])):
                         same_r = r0[0] == r1[0] and (strict_eq(r0[1], r1[1]) if r0[0] == "ok" else r0[1] == r1[1])
-                        if op_order_free(ops[i][1]) and r0[0] == "ok" and r1[0] == "ok":
+                        if traced[i][0] == "op" and op_order_free(traced[i][2]) and r0[0] == "ok" and r1[0] == "ok":
                             from k1 import canon_key
                             same_r = strict_eq(sorted(r0[1], key=canon_key), sorted(r1[1], key=canon_key))
                         if not same_r:
-                            why = f"operation {i} {jsonable(ops[i])} returned {jsonable(r1)} inside [{nesting}], {jsonable(r0)} unbuffered"
+                            why = f"step {i} {jsonable(traced[i])} returned {jsonable(r1)} inside [{nesting}], {jsonable(r0)} unbuffered"
                         elif not strict_eq(s0, s1):
-                            why = f"after operation {i} {jsonable(ops[i])} (result {jsonable(r1)}) the collection reads {jsonable(s1)} inside [{nesting}], {jsonable(s0)} unbuffered"
+                            why = f"after step {i} {jsonable(traced[i])} (result {jsonable(r1)}) the collection reads {jsonable(s1)} inside [{nesting}], {jsonable(s0)} unbuffered"
                         if why:
                             break
                     if why is None and not strict_eq(base[1], got[1]):
